@@ -4,13 +4,14 @@
 //   os <width> <fill-hex> <l|r|i> <format-hex> <op>*         operator<< into a stream with pending width/fill/adjustment
 //   seq <format-hex> <op>* / <format-hex> <op>* / ...        several formatters, one after the other
 //   exc <arg>+
-//   arg = s<hex> | s- | i<dec> | d<dec> | b0 b1 | f<dec> | h<dec> | x<dec> | w<dec> | t0 t1 | m<manipulator>   (see ocaml/fmt_driver.ml)
+//   arg = s<hex> | s- | n<hex> | r<hex> | l<hex> | c<hex byte> | i<dec> | d<dec> | b0 b1 | f<dec> | h<dec> | x<dec> | w<dec> | t0 t1 | m<manipulator>   (see ocaml/fmt_driver.ml)
 #include "common.hpp"
 #include <nitro/except/raise.hpp>
 #include <nitro/format/format.hpp>
 
 #include <cerrno>
 #include <iomanip>
+#include <map>
 #include <utility>
 
 namespace
@@ -28,10 +29,15 @@ std::ostream& operator<<(std::ostream& o, const BoolAlpher& x) { return o << std
 // an argument of one of the exercised kinds; with_value(v, fn) calls fn with the value in its real C++ type
 // (std::string, long, double, bool, the user types above, a manipulator); streaming a Val streams that value
 // with its own operator<< (used where the number of arguments of a variadic call is chosen at run time)
+// the caller's std::string variables of the current case (kind 'n'): one variable per distinct text, alive for the
+// whole case, passed as NON-CONST lvalues; after the case every variable must still hold its text
+std::map<std::string, std::string> g_vars;
+
 struct Val
 {
     char kind = 's';
     std::string s; // text, or manipulator name
+    std::string* var = nullptr; // kind 'n': the caller's variable
     long l = 0;    // number, or manipulator parameter
     double d = 0;
 };
@@ -40,7 +46,11 @@ void with_value(const Val& v, Fn&& fn)
 {
     switch (v.kind)
     {
-    case 's': fn(v.s); break;
+    case 's': fn(v.s); break;                 // const std::string&
+    case 'n': fn(*v.var); break;              // std::string& (non-const lvalue, the caller's variable)
+    case 'r': fn(std::string(v.s)); break;    // std::string&& (temporary)
+    case 'l': fn(v.s.c_str()); break;         // const char*
+    case 'c': fn(v.s[0]); break;              // char
     case 'i': fn(v.l); break;
     case 'd': fn(v.d); break;
     case 'b': fn(v.l != 0); break;
@@ -65,7 +75,7 @@ void with_value(const Val& v, Fn&& fn)
 }
 std::ostream& operator<<(std::ostream& o, const Val& v)
 {
-    with_value(v, [&](auto&& x) { o << x; });
+    with_value(v, [&](auto&& x) { o << std::forward<decltype(x)>(x); });
     return o;
 }
 bool parse_long(const std::string& w, long& out)
@@ -84,7 +94,13 @@ bool parse_arg(const std::string& w, Val& v)
     const std::string r = w.substr(1);
     switch (w[0])
     {
-    case 's': v.s = vh::unhex(r); return true;
+    case 's': case 'r': v.s = vh::unhex(r); return true;
+    case 'n':
+        v.s = vh::unhex(r);
+        v.var = &g_vars.emplace(v.s, v.s).first->second;
+        return true;
+    case 'l': v.s = vh::unhex(r); return v.s.find('\0') == std::string::npos;
+    case 'c': v.s = vh::unhex(r); return v.s.size() == 1;
     case 'i': case 'd': case 'h': case 'x': case 'w':
         if (!parse_long(r, v.l)) return false;
         v.d = static_cast<double>(v.l);
@@ -116,12 +132,13 @@ bool parse_arg(const std::string& w, Val& v)
     default: return false;
     }
 }
-bool stateless(const Val& v) { return v.kind == 's' || v.kind == 'i' || v.kind == 'd' || v.kind == 'b' || v.kind == 'f'; }
-bool all_strings(const std::vector<Val>& v)
+bool stateless(const Val& v) { return v.kind == 's' || v.kind == 'n' || v.kind == 'r' || v.kind == 'l' || v.kind == 'c' || v.kind == 'i' || v.kind == 'd' || v.kind == 'b' || v.kind == 'f'; }
+bool all_kind(const std::vector<Val>& v, char k)
 {
-    for (auto& x : v) if (x.kind != 's') return false;
+    for (auto& x : v) if (x.kind != k) return false;
     return true;
 }
+bool all_strings(const std::vector<Val>& v) { return all_kind(v, 's'); }
 
 using F = nitro::detail::formatter<char>;
 constexpr std::size_t MAXN = 8;
@@ -130,12 +147,19 @@ template <std::size_t... I>
 void call_args_val(F& f, const std::vector<Val>& v, std::index_sequence<I...>) { f.args(v[I]...); }
 template <std::size_t... I>
 void call_args_str(F& f, const std::vector<Val>& v, std::index_sequence<I...>) { f.args(v[I].s...); }
+// args(...) with the caller's variables as non-const lvalues / with temporaries
+template <std::size_t... I>
+void call_args_var(F& f, const std::vector<Val>& v, std::index_sequence<I...>) { f.args(*v[I].var...); }
+template <std::size_t... I>
+void call_args_tmp(F& f, const std::vector<Val>& v, std::index_sequence<I...>) { f.args(std::string(v[I].s)...); }
 template <std::size_t N>
 bool dispatch_args(F& f, const std::vector<Val>& v)
 {
     if (v.size() == N)
     {
         if (all_strings(v)) call_args_str(f, v, std::make_index_sequence<N>{});
+        else if (N > 0 && all_kind(v, 'n')) call_args_var(f, v, std::make_index_sequence<N>{});
+        else if (N > 0 && all_kind(v, 'r')) call_args_tmp(f, v, std::make_index_sequence<N>{});
         else call_args_val(f, v, std::make_index_sequence<N>{});
         return true;
     }
@@ -192,7 +216,7 @@ bool apply_ops(F& f, const std::vector<Op>& ops, bool cstr)
         {
             const Val& v = o.vals[0];
             if (v.kind == 's' && cstr && no_nul(v.s)) f % v.s.c_str();
-            else with_value(v, [&](auto&& x) { f % x; });
+            else with_value(v, [&](auto&& x) { f % std::forward<decltype(x)>(x); });
         }
         else if (!dispatch_args<MAXN>(f, o.vals))
             return false;
@@ -232,7 +256,18 @@ void settle()
         % std::setprecision(6) % std::setfill(' ') % std::setw(0);
 }
 
+static std::string run_case_inner(const std::vector<std::string>& w);
 static std::string run_case(const std::vector<std::string>& w)
+{
+    g_vars.clear();
+    std::string out = run_case_inner(w);
+    // arguments are values: formatting must not modify the caller's variables
+    for (auto& kv : g_vars)
+        if (kv.first != kv.second) out += " CALLER-VARIABLE-MODIFIED(" + vh::hex(kv.first) + "->" + vh::hex(kv.second) + ")";
+    g_vars.clear();
+    return out;
+}
+static std::string run_case_inner(const std::vector<std::string>& w)
 {
     settle();
     if (w.size() >= 2 && w[0] == "fmt")
